@@ -218,6 +218,11 @@ func (mgr *GCMgr) gc(bkt *Bucket, startChunkID, endChunkID int, merge bool) {
 	defer mgr.AfterBucket(bkt)
 	verifPoint("gc.prepared", bkt.ID)
 
+	// the files GC reads, appends to or removes must be completely on disk: a record still in the write buffer
+	// of such a file (the flush that follows a rotation may not have run yet) is not seen by the reader of the
+	// file and is dropped with the buffer when the file is cleared
+	bkt.datas.flushPendingBelow(endChunkID + 1)
+
 	gc.Dst = startChunkID
 	// try to find the nearest chunk that small than start chunk
 	for i := startChunkID - 1; i >= 0; i-- {
